@@ -97,7 +97,8 @@ CLAIMED["C10"] = dict(
     design="7 C10")
 CLAIMED["C11"] = dict(
     text="Kernel-checked for EVERY file-system state, source and tree option: C11_write_refuses (write mode on an existing path is "
-         "refused whatever it holds; a failing save returns no file system, so nothing is touched), C11_overwrite + "
+         "refused whatever it holds; a failing save returns no file system, so nothing is touched; C11_write_refuses_every_input / "
+         "C11_unknown_every_input: the same for arrays, dicts, Metadata, lists / tuples and unsavable objects), C11_overwrite + "
          "C11_overwrite_no_residue (overwrite = delete then write: the result does not depend on the old content), C11_append_absent "
          "(append / append-over to a missing path = write), C11_unknown (unknown mode refused), C11_tables (the mode tables "
          "REGENERATED from write.py contain exactly the documented spellings, pairwise classified as documented).",
